@@ -215,6 +215,36 @@ noncomputable def zmodPair (N : ℕ) [NeZero N] : FourierPair (ZMod N) where
     rw [ZMod.card]
     exact dft_parseval x
 
+/-! #### DC coefficient and shift rule (additions for C05/C15/C39/C40) -/
+
+/-- `zero` is the zero-frequency index of the pair: `F x zero = Σ x` and constants have no other component. -/
+structure FourierPair.HasDC {ι : Type*} [Fintype ι] (P : FourierPair ι) (zero : ι) : Prop where
+  dc : ∀ x : ι → ℂ, P.F x zero = ∑ j, x j
+  const : ∀ (c : ℂ) (k : ι), k ≠ zero → P.F (fun _ => c) k = 0
+
+theorem zmodPair_hasDC (N : ℕ) [NeZero N] : (zmodPair N).HasDC 0 where
+  dc x := by
+    show 𝓕 x 0 = _
+    exact dft_apply_zero x
+  const c k hk := by
+    show 𝓕 (fun _ => c) k = 0
+    simp only [dft_apply, smul_eq_mul, ← Finset.sum_mul]
+    have h := char_sum (N := N) (-k)
+    simp only [neg_eq_zero, hk, if_false] at h
+    have : ∀ j : ZMod N, (stdAddChar (-(j * k)) : ℂ) = stdAddChar (-k * j) := by
+      intro j; congr 1; ring
+    simp only [this, h, zero_mul]
+
+/-- shift rule of the concrete DFT: translating by `a` multiplies the spectrum by the character `e^{-2πi a k / N}` -/
+theorem zmod_dft_shift (N : ℕ) [NeZero N] (x : ZMod N → ℂ) (a k : ZMod N) :
+    𝓕 (fun j => x (j - a)) k = (stdAddChar (-(a * k)) : ℂ) * 𝓕 x k := by
+  simp only [dft_apply, smul_eq_mul, Finset.mul_sum]
+  apply Fintype.sum_equiv (Equiv.subRight a)
+  intro j
+  simp only [Equiv.subRight_apply]
+  rw [← mul_assoc, ← AddChar.map_add_eq_mul]
+  congr 2; ring
+
 end ZModInstance
 
 end AbtemVerif.DFT
